@@ -99,6 +99,7 @@ func runC19(t *rapid.T) {
 	cfg.NumInputUnknown = rapid.Bool().Draw(t, "numinput")
 	cfg.TextAsBytes = rapid.Bool().Draw(t, "textbytes")
 	cfg.BoolAsInt = rapid.Bool().Draw(t, "boolint")
+	cfg.FloatAsText = rapid.IntRange(0, 3).Draw(t, "floattext") == 0
 	tr.Driver = cfg
 	if rapid.IntRange(0, 3).Draw(t, "useprecision") == 0 {
 		tr.Precision = rapid.IntRange(1, 6).Draw(t, "precision")
@@ -210,11 +211,15 @@ func runC19(t *rapid.T) {
 
 	// S2: read the stored rows back
 	readConf := []qsql.ConfigFunc{qsql.Query("SELECT * FROM " + tr.Table)}
-	if cfg.BoolAsInt {
+	{
 		var pairs []qsql.CoercePair
 		for i, n := range src.Names {
-			if src.Types[i] == "bool" {
+			if src.Types[i] == "bool" && cfg.BoolAsInt {
 				pairs = append(pairs, qsql.CoercePair{Column: n, Type: qsql.Int64ToBool})
+			}
+			if src.Types[i] == "float" && cfg.FloatAsText {
+				pairs = append(pairs, qsql.CoercePair{Column: n, Type: qsql.StringToFloat})
+				core.Probe("coerce-string-to-float")
 			}
 		}
 		if len(pairs) > 0 {
@@ -245,7 +250,7 @@ func runC19(t *rapid.T) {
 			}
 		}
 	}
-	if okNull {
+	if okNull && !cfg.FloatAsText {
 		for _, row := range sim.Tables[tr.Table].Rows {
 			nr := append([]driver.Value{}, row...)
 			for c, v := range nr {
